@@ -508,6 +508,23 @@ class Accum:
             nest.after()
 
     # ---- iteration space
+    def freeze_preconditions(self):
+        """call right before executing the function: the iteration-space lemmas are then stated under exactly the
+        preconditions accumulated so far (and not under facts of whatever path reaches the point where they are stated)"""
+        self.pre_hyps = list(self.v.st.pc)
+
+    def _lemma(self, name, hyps, goal):
+        from .csym import Obligation
+        v = self.v
+        base = getattr(self, "pre_hyps", None)
+        if base is None:
+            return v.lemma(name, hyps, goal)
+        ob = Obligation(v.eng.prefix + v.task.name + "." + name, list(base) + list(hyps), goal, "lemma")
+        if z3.is_true(z3.simplify(goal)):
+            ob.verdict, ob.backend = "proved", "simplify"
+        v.eng.obligations.append(ob)
+        return ob
+
     def _substitution(self, vis, key, kvars):
         """index symbols expressed by the key variables (key components must be +-index symbols, each once)"""
         syms = [l.sym for l in vis.levels]
@@ -551,8 +568,8 @@ class Accum:
         conds = self.visit_conditions(kvars, nests, cls)
         hyps = list(hyps)
         for lab, c in conds:
-            v.lemma("%s.visited_is_specified.%s" % (name, lab), hyps, z3.Implies(c, spec))
+            self._lemma("%s.visited_is_specified.%s" % (name, lab), hyps, z3.Implies(c, spec))
         cnt = z3.Sum(*[z3.If(c, 1, 0) for _l, c in conds]) if conds else z3.IntVal(0)
-        v.lemma("%s.specified_is_visited_exactly_once" % name, hyps, z3.Implies(spec, cnt == 1))
+        self._lemma("%s.specified_is_visited_exactly_once" % name, hyps, z3.Implies(spec, cnt == 1))
         v.ground("%s.contributions_declared" % name, len(conds) > 0, "%d contribution classes" % len(conds))
         return conds
